@@ -130,8 +130,9 @@ class FakeSock:
             raise make_exc(*self.handshake)
 
     def getpeername(self):
-        if self.dead:
-            raise OSError(errno.ENOTCONN, os.strerror(errno.ENOTCONN))
+        if self.dead:                                 # True (ENOTCONN) or the errno to report
+            e = errno.ENOTCONN if self.dead is True else int(self.dead)
+            raise OSError(e, os.strerror(e))
         return self.peer
 
     def getsockname(self):
@@ -147,6 +148,8 @@ class FakeSock:
         pass
 
     def shutdown(self, how):
+        if self.dead:                                 # a socket whose peer has reset is not connected any more
+            raise OSError(errno.ENOTCONN, os.strerror(errno.ENOTCONN))
         self.shut.append(int(how))                    # SHUT_RD 0, SHUT_WR 1, SHUT_RDWR 2
 
     def close(self):
